@@ -619,6 +619,36 @@ def obligations(tier):
                                 "mismatch_placement": "WHERE the same-named system sits on its own parent", "mismatch_placement_strand": "the strand of the system's placement on its own parent",
                                 "mismatch_grandparent": "the grandparent's id", "mismatch_type": "the sequence type"}[kind],
                        bounds="1x1 blocks, unbounded symbolic coordinates", examples=[_ex2(1, 1, p=5)]))
+    def alphabet_foreign_characters():
+        """every alphabet refuses a text holding ONE character outside it - any ASCII control, white-space, punctuation or letter, at the first, an inner or the
+        LAST position (a trailing line feed included), alone or doubled - with AlphabetError (or another ValueError); texts of its own letters are accepted"""
+        from inscripta.biocantor.exc import AlphabetError
+
+        def fn(a, c, where):
+            a, c, where = concretize(a, c, where)
+            with untraced():
+                alpha = sorted(Alphabet, key=lambda x: x.name)[a]
+                letters = alpha.value
+                ch = chr(c)
+                base = (letters * 3)[:7]
+                text = [ch + base, base[:3] + ch + base[3:], base + ch, base + ch + ch, ch][where]
+                legal = ch.upper() in letters if ch.isalpha() or ch in letters else False
+                try:
+                    sq = Sequence(text, alpha)
+                except (AlphabetError, ValueError):
+                    return not legal
+                return legal and len(sq) == len(text) and str(sq) == text
+
+        return fn
+
+    quick = tier == "quick"
+    nalpha = len(list(Alphabet))
+    out.append(Obl("alphabet_foreign_character_anywhere", alphabet_foreign_characters(), dict(a=int, c=int, where=int),
+                   lambda a, c, where: 0 <= a and a < nalpha and 0 <= c and c <= 127 and 0 <= where and where <= 4 and (not quick or (a + c) % 2 == 0), budget=900, cost=60,
+                   desc="Sequence(text, alphabet) for every alphabet and every 7-bit character placed first / inside / last / doubled at the end / alone in a text of the "
+                        "alphabet's own letters: accepted exactly when the character (case-folded) belongs to the alphabet, refused with AlphabetError otherwise - a "
+                        "trailing line feed, tab or blank is not overlooked", bounds="%d alphabets x 128 characters x 5 positions%s (closed by the solver)" % (
+                       nalpha, " (half in the quick tier)" if quick else ""), examples=[dict(a=0, c=10, where=2), dict(a=2, c=66, where=1)]))
     out.append(Obl("deep_location", deep_location(), dict(n=int), lambda n: n == 2 or n == 400 or n == 1200 or n == 5000, budget=120, cost=10,
                    desc="locations with 2 / 400 / 1200 / 5000 blocks answer positional queries without RecursionError", bounds="4 sizes (concrete)",
                    examples=[dict(n=400)]))
